@@ -144,6 +144,7 @@ static void* actor_fn(void* a) {
       if (role == 0) {
         int ok = 0;
         atomic_store(&t->j1_in, 1);
+        fb_spin(&r, 120);  // the detacher spins for a random moment too: either may reach the handle first, or both at once
         FB_BLOCKING(s, "C04 fiber_join", ok = fiber_join(t->target, &res));
         if (ok == FIBER_SUCCESS) check_success(t, "fiber_join (S6)", res, role);
         else atomic_fetch_add(&t->failures, 1);
@@ -152,7 +153,9 @@ static void* actor_fn(void* a) {
         atomic_store(&s->where, "C04 waiting for the joiner to block");
         while (!atomic_load(&t->j1_in)) fiber_yield();
         atomic_store(&s->where, (const char*)0);
-        delay(&r, 3);
+        // either a few switches later (the joiner is parked by then) or at once, racing with the joiner's entry into fiber_join
+        if (vp_rand(&r) & 1) delay(&r, 3);
+        else fb_spin(&r, 120);
         fiber_detach(t->target);
       }
       break;
@@ -284,6 +287,29 @@ static void* root(void* x) {
         }
       } else {
         looks = 0;
+      }
+      // ... or a finished fiber that is still executing and has produced no event (nor has anybody else) over three looks >= 100 ms
+      // apart: it waits, without ever switching, for something that will not come
+      static const void* stuck;
+      static uint64_t stuck_sw, stuck_ns;
+      static int stuck_looks;
+      uint64_t sw = 0;
+      const void* f = vp_ghost_finished_but_running(&sw);
+      if (f && f == stuck && sw == stuck_sw) {
+        if (vp_now_ns() - stuck_ns > 100000000ULL) {
+          stuck_ns = vp_now_ns();
+          if (++stuck_looks >= 3) {
+            vp_violation("C04", "reclaim:finished-fiber-never-completes",
+                         "fiber %p returned from its function but is still executing and has not switched or been reclaimed while the rest of the runtime produced no event: "
+                         "it waits for a joiner that does not exist (%ld created, %ld reclaimed)", f, c, d);
+            break;
+          }
+        }
+      } else {
+        stuck = f;
+        stuck_sw = sw;
+        stuck_ns = vp_now_ns();
+        stuck_looks = 0;
       }
     }
   }
